@@ -9,7 +9,9 @@ Record case := mk {
   c_names : list string;
   c_state : result coll;              (* dump of the real Collection tree *)
   c_nobs : list nobs;                 (* view 0: one per name *)
-  c_rows : result (list row)          (* views 1-3: parsed listing *)
+  c_rows : result (list row);         (* views 1-3: parsed listing *)
+  c_root : option string;             (* views 1-3: --list <root> *)
+  c_depth : nat                       (* views 1-3: --list-depth N, 0 = none *)
 }.
 
 Definition res_eqb {A} (eqb : A -> A -> bool) (a b : result A) : bool :=
@@ -67,6 +69,39 @@ Definition model_rows (c : coll) (view : nat) : result (list row) :=
       end
   end.
 
+(** [--list <root>] / [--list-depth N]: the root is looked up after the parser
+    is built ("Sub-collection not found" is an Exit), then the emptiness test
+    of [list_tasks] on the collection in focus, then the format. *)
+Definition model_rows_at (c : coll) (view : nat) (root : option string) (dl : nat) : result (list row) :=
+  match root, dl with
+  | None, O => model_rows c view
+  | _, _ =>
+      match parser_of c with
+      | Err e => Err e
+      | Ok _ =>
+          match (match root with None => Some c | Some r => sub_at c (split_char "." r) end) with
+          | None => Err EOther
+          | Some f =>
+              if names_empty f then Err EOther else
+              let rooted := match root with Some _ => true | None => false end in
+              let trailer : list row :=
+                match c_default f with
+                | Some d => if String.eqb d "" then []
+                            else [(1000, (if rooted then ("." ++ d)%string else d), [], None)]
+                | None => []
+                end in
+              match view with
+              | 1 => Ok (pair_rows false rooted dl f [] ++ trailer)
+              | 2 => Ok (pair_rows true rooted dl f [] ++ trailer)
+              | _ => match dl with O => Ok (json_rows f 0) | _ => Err EOther end
+              end
+          end
+      end
+  end.
+
+Definition plain_view (c : case) : bool :=
+  match c_root c, c_depth c with None, O => true | _, _ => false end.
+
 Definition corr (c : case) : bool :=
   match build (c_script c), c_state c with
   | Err e1, Err e2 => err_eqb e1 e2
@@ -74,14 +109,19 @@ Definition corr (c : case) : bool :=
       coll_eqb m s &&
       match c_view c with
       | O => list_eqb nobs_eqb (map (model_nobs m) (c_names c)) (c_nobs c)
-      | v => res_eqb (list_eqb row_eqb) (model_rows m v) (c_rows c)
+      | v => res_eqb (list_eqb row_eqb) (model_rows_at m v (c_root c) (c_depth c)) (c_rows c)
       end
   | _, _ => false
   end.
 
 Definition spec (c : case) : bool :=
   match c_state c with
-  | Ok s => spec_ok (c_script c) s (c_view c) (c_names c) (c_nobs c) (c_rows c)
+  | Ok s =>
+      if plain_view c then spec_ok (c_script c) s (c_view c) (c_names c) (c_nobs c) (c_rows c)
+      else match c_view c with
+           | O => true
+           | v => spec_at (c_script c) s v (c_root c) (c_depth c) (c_rows c)
+           end
   | Err _ => true
   end.
 
@@ -125,15 +165,29 @@ Fixpoint bindings_adj (fb fc : bool) (c : coll) (path : list string) {struct c} 
   end.
 
 (** [fd]: spellings are not judged (F-C10d) *)
-Definition adj_list (fb fc fd : bool) (c : case) : bool :=
+Definition adj_list_gen (fb fc fd fe : bool) (c : case) : bool :=
   match c_state c, c_view c with
   | Ok s, S _ =>
-      let bs := bindings_adj fb fc s [] in
-      listing_gen (negb fc) (flat_of bs) (map fst bs) (negb (fd || fc)) (c_auto_dash s) (c_view c) (c_rows c)
+      if plain_view c then
+        let bs := bindings_adj fb fc s [] in
+        listing_gen (negb fc) (flat_of bs) (map fst bs) (negb (fd || fc)) (c_auto_dash s) (c_view c) (c_rows c)
+      else
+        match (match c_root c with None => Some s | Some r => focus_of s (split_char "." r) end) with
+        | None => false
+        | Some f =>
+            listing_at (negb fc) fe (bindings_adj fb fc f []) (sub_colls f []) (negb (fd || fc)) (c_auto_dash s)
+                       (c_view c) (match c_root c with Some _ => true | None => false end) (c_depth c) (c_rows c)
+        end
   | _, _ => false
   end.
+
+Definition adj_list (fb fc fd : bool) (c : case) : bool := adj_list_gen fb fc fd false c.
 
 Definition adj_list_b (c : case) : bool := adj_list true false false c.
 Definition adj_list_c (c : case) : bool := adj_list false true false c.
 Definition adj_list_d (c : case) : bool := adj_list false false true c.
 Definition adj_list_all (c : case) : bool := adj_list true (Nat.eqb (c_view c) 3) true c.
+
+(** F-C10e: a scoped flat listing shows a truncated collection row without the leading dot *)
+Definition adj_list_e (c : case) : bool := adj_list_gen false false false true c.
+Definition adj_list_all_e (c : case) : bool := adj_list_gen true false true true c.
